@@ -59,21 +59,25 @@ static std::string pend_of(World &w, const std::string &name) {
     int t = w.tid[name];
     if (w.sched.done(t)) return "done";
     const auto &e = w.sched.pending(t);
-    std::string f = e.func;
-    auto has = [&](const char *s) { return f.find(s) != std::string::npos; };
-    std::string site = std::string("?") + cocls_verif::op_name(e.op) + "@" + f;
+    // classification by operation kind, operands and by WHICH atomic object is touched (robust against
+    // renamed or restructured functions): the mutex's request stack vs. a sync_awaiter flag
+    const void *req = &(w.mx.*MProbe::req_mp());
+    const std::uint64_t door = (std::uint64_t) reinterpret_cast<std::uintptr_t>(MProbe::door());
+    std::string site = std::string("?") + cocls_verif::op_name(e.op) + "@" + e.func;
     switch (e.op) {
         case op_t::mark: site = e.tag; break;
         case op_t::cas:
-            if (has("mutex::ready(")) site = "try";
-            else if (has("::subscribe(")) site = "sub";
-            else if (has("::unlock(")) site = "ucas";
+            if (e.obj == req) {
+                if (e.arg == door) site = "try";            // null -> doorman
+                else if (e.arg == 0) site = "ucas";         // doorman -> null
+                else site = "sub";                          // prev -> awaiter node
+            }
             break;
         case op_t::xchg:
-            if (has("build_queue")) site = "bq";
+            if (e.obj == req && e.arg == door) site = "bq";
             break;
         case op_t::store: case op_t::assign:
-            if (has("::wakeup(")) site = "fstore";
+            if (e.obj != req) site = "fstore";
             break;
         case op_t::notify: site = "notify"; break;
         case op_t::wait: site = "wait"; break;
@@ -93,8 +97,9 @@ static void learn_nodes(World &w) {
     for (auto &kv : w.kind) {
         int t = w.tid[kv.first];
         if (w.sched.parked(t) && !w.sched.pending_after(t) && w.sched.pending(t).op == op_t::cas) {
-            std::string f = w.sched.pending(t).func;
-            if (f.find("::subscribe(") != std::string::npos) w.node_of[w.sched.pending(t).arg] = kv.first;
+            const auto &e = w.sched.pending(t);
+            const std::uint64_t door = (std::uint64_t) reinterpret_cast<std::uintptr_t>(MProbe::door());
+            if (e.obj == &(w.mx.*MProbe::req_mp()) && e.arg != door && e.arg != 0) w.node_of[e.arg] = kv.first;
         }
     }
 }
@@ -154,6 +159,7 @@ static void run(const Scenario &sc, Reporter &rep) {
         w.rel[kv.first] = sc.hdr.at("rel").at(kv.first).as_str("dtor");
     }
     w.sched.yield_after = true;
+    if (w.sched.record_motable) cocls_verif::motable::get().label(&(w.mx.*MProbe::req_mp()), sizeof(void *), "mutex.requests");
     w.sched.install();
     for (auto &kv : w.kind) {
         std::string p = kv.first, kind = kv.second, rel = w.rel[p];
